@@ -127,7 +127,8 @@ pub fn run(tier: Tier, seed: u64) -> i32 {
     let sp = spec(tier);
     let mut stats = engine::run_spec(&sp, tier, seed);
     engine::run_regressions::<G>("C03", check, &mut stats);
-    engine::finish("C03", tier, seed, RULE, stats, t0, serde_json::json!({}), &["union-find reference model and exact rational arithmetic (num::BigRational) are correct", "table read through the sampler's serde serialisation (serde_json)"])
+    let extra = super::fuzzrun::maybe_fuzz("C03", "graph_table", tier, seed, &mut stats, serde_json::json!({}));
+    engine::finish("C03", tier, seed, RULE, stats, t0, extra, &["union-find reference model and exact rational arithmetic (num::BigRational) are correct", "table read through the sampler's serde serialisation (serde_json)"])
 }
 pub fn replay(path: &str) -> i32 {
     engine::replay_file::<G>("C03", path, check)
